@@ -129,3 +129,22 @@ def strip : Bytes → StripSt → Bytes
 def stripInsignificantWs (bs : Bytes) : Bytes := strip bs .out
 
 end Jomini.JsonSpec
+
+namespace Jomini.JsonSpec
+
+/-! ### grouping duplicate keys -/
+
+/-- Stable grouping: each distinct key once, in order of first appearance, as
+`(first item, the later items with the same key in their original order)`.
+(`n` bounds the number of groups; `stableGroupBy` passes the length of the list.) -/
+def stableGroupByF {α κ : Type} [DecidableEq κ] (key : α → κ) : Nat → List α → List (α × List α)
+  | 0, _ => []
+  | _ + 1, [] => []
+  | n + 1, x :: xs =>
+    (x, xs.filter (fun y => decide (key y = key x))) ::
+      stableGroupByF key n (xs.filter (fun y => !decide (key y = key x)))
+
+def stableGroupBy {α κ : Type} [DecidableEq κ] (key : α → κ) (l : List α) : List (α × List α) :=
+  stableGroupByF key l.length l
+
+end Jomini.JsonSpec
